@@ -18,8 +18,9 @@ EXPLANATION = (
     "(KEY) for every map-typed storage the key's backward slice to the lookup parameters contains only injective "
     "operations (copies, aggregates, to_bits, widening conversions, addition of a constant) - float arithmetic, "
     "float->int and narrowing casts, division, shifts and masks are reported; (LOCKORDER) the relation 'storage A is "
-    "borrowed while storage B is entered' is irreflexive and acyclic. NOT decided: that length-set (resize) buffers are "
-    "completely overwritten before being read (runtime lengths).")
+    "borrowed while storage B is entered' is irreflexive and acyclic; (STALE-READ) the first access of a call to the elements "
+    "of a reusable buffer is a write / clear / fill, never a read (resize keeps the retained prefix). NOT decided: that the "
+    "writes to a length-set (resize) buffer cover every index that is read later (runtime lengths).")
 NOT_DECIDED = "complete overwrite of length-set buffers before reads; state hidden inside dependencies"
 ASSUMPTIONS = ["dependency crates (crc, md-5, nom, heapless) keep no hidden mutable global state affecting results"]
 
@@ -405,6 +406,42 @@ def run(facts, tier, ctx):
             rs.ok(dict(sample, verdict="ok"))
     rs.require_floor(8, "LocalKey::with sites")
     out.append(rs)
+
+    # ----------------------------------------------------------- STALE-READ
+    sr = RuleResult("STALE-READ", "the first access a call makes to the elements of a reusable buffer is not a read "
+                    "(interprocedural first-access analysis; `resize` is not a definition of the retained prefix)")
+    from .lib_stale import Stale
+    S = Stale(facts, OPAQUE_TYPES)
+    for (b, bi, st, outer, inner) in sites:
+        if st is None or outer is None or inner is None:
+            continue
+        where = b.loc(bi, "term")
+        roots = storage_roots(inner)
+        if not roots:
+            continue   # reported by RESET
+        if any(stor.get(st, "").startswith(m) for m in MAP_TYPES):
+            sr.ok({"storage": st, "verdict": "keyed cache: decided by KEY"}, trivial=True)
+            continue
+        exposed, wr, ev = S.analyse(inner, roots)
+        sample = {"storage": st, "type": stor.get(st), "site": where, "written_paths": sorted(wr),
+                  "element_reads": sum(1 for e in ev if e[2] == "r"), "element_writes": sum(1 for e in ev if e[2] == "w")}
+        if exposed:
+            first = {}
+            for (p, text) in exposed:
+                first.setdefault(p, []).append(text)
+            for p, texts in sorted(first.items()):
+                sr.fail(Finding("STALE-READ", inner.id, "read-before-write:%s%s" % (st.split("::")[-1], p), 0, where,
+                                "storage %s%s: elements are read (%s%s) on a path on which this call has not written or "
+                                "cleared that buffer before: `resize` keeps what an earlier call on this thread left in "
+                                "the retained prefix, so the earlier call's data flows into this one"
+                                % (st, p, texts[0], (" and %d more read(s)" % (len(texts) - 1)) if len(texts) > 1 else "")),
+                        dict(sample, verdict="FAIL"))
+        else:
+            sr.ok(dict(sample, verdict="ok"))
+    sr.notes.append("calls treated conservatively as reads (not in the accessor tables): %s" % dict(sorted(S.unknown_calls.items())))
+    sr.notes.append("decides the order of first accesses, not that the writes cover every index read later")
+    sr.require_floor(8, "LocalKey::with sites")
+    out.append(sr)
 
     # ---------------------------------------------------------- PLAIN-STATE
     ps = RuleResult("PLAIN-STATE", "a reusable storage holding a plain value (no growable buffer) is overwritten as a whole "
